@@ -1,2 +1,121 @@
-/-! placeholder driver (property C20 not built yet) -/
-def main : IO Unit := IO.println "bad-op"
+import LlgoVerif.Util
+import LlgoVerif.Model.Path
+import LlgoVerif.Model.Extract
+import LlgoVerif.Model.ExtractLock
+/-! Line-protocol driver for C20. One request per line, one answer per line (H = hex of bytes, `-` = empty).
+
+    clean H | dir H | join H H        -> ok H
+    x CFG FMT ENTRIES                 -> ok|err LISTING         FMT = tgz | zip ; CFG = five 0/1 flags
+                                         (tarAcceptRoot tarTrunc zipGuard zipAcceptRoot zipMkParents)
+    lib CFG SUB FNAME ENTRIES         -> ok|err LISTING | nomodel
+    lock N FAIL SCHEDULE              -> ok maxExtractors=K dst=… | stuck@i   (SCHEDULE = comma separated process numbers)
+    ENTRIES = "." | K:NAME:DATA:LINK,…   LISTING = "." | PATH=d PATH=f:DATA …  (paths relative to the case directory) -/
+open LlgoVerif LlgoVerif.Util LlgoVerif.Path LlgoVerif.Extract
+
+def toStr (bs : List UInt8) : Str := bs.map fun b => Char.ofNat b.toNat
+def ofStr (s : Str) : List UInt8 := s.map fun c => UInt8.ofNat c.toNat
+def unhexStr (h : String) : Option Str := (unhex h).map toStr
+def hexStr (s : Str) : String := hex (ofStr s)
+
+def parseEntry (s : String) : Option Entry :=
+  match s.splitOn ":" with
+  | [k, n, d, l] => do
+    let kind ← match k with
+      | "d" => some Kind.dir | "f" => some Kind.reg | "s" => some Kind.sym | "h" => some Kind.other | "o" => some Kind.other
+      | _ => none
+    pure { kind := kind, name := (← unhexStr n), data := (← unhex d), link := (← unhex l) }
+  | _ => none
+
+def parseEntries (s : String) : Option (List Entry) :=
+  if s = "." then some [] else (s.splitOn ",").mapM parseEntry
+
+def parseCfg (s : String) : Option Cfg :=
+  match s.toList.map (· == '1') with
+  | [a, b, c, d, e] => if s.toList.all (fun ch => ch == '0' || ch == '1') then some ⟨a, b, c, d, e⟩ else none
+  | _ => none
+
+def keyStr (k : Key) : Str := joinSlash k
+
+def listing (fs : FS) : String :=
+  let items := (dedup fs []).map fun (k, n) =>
+    hexStr (keyStr k) ++ (match n with | .dir => "=d" | .file d => "=f:" ++ hex d)
+  if items.isEmpty then "." else " ".intercalate items
+
+/-- the directories the harness creates before extracting -/
+def destStr : Str := "/g1/g2/g3/root/a/b/dest".toList
+def prefixesOf : Key → List Key
+  | [] => []
+  | c :: cs => [c] :: (prefixesOf cs).map (c :: ·)
+def initFS : FS := (prefixesOf (comps destStr)).map fun k => (k, Node.dir)
+
+open LlgoVerif.ExtractLock in
+/-- replay a schedule of the lock-protocol model.  Items: `p` (step of process p), `p!` (failing step),
+    `p:evt` (step that must perform the observable event `evt`, else `mismatch`). -/
+def handleLock (k n : Nat) (sched : String) : String :=
+  let items := if sched = "." then [] else sched.splitOn ","
+  let countExt (s : State) : Nat := ((List.range n).filter fun p => extracting (s.pc p)).length
+  let showTree (t : Option (List Nat)) : String :=
+    match t with
+    | none => "none"
+    | some l => if l.length = k && (match l with | [] => true | p :: r => r.all (· == p)) then "complete" else "broken"
+  let rec go (s : State) (i : Nat) (mx : Nat) : List String → String
+    | [] =>
+      let pcs := (List.range n).map fun p => match s.pc p with
+        | .done true => "done-ok" | .done false => "done-err" | .stat1 => "idle" | _ => "active"
+      s!"ok maxext={mx} started={s.started} dst={showTree s.dst} ext={showTree s.ext} tmp={showTree s.tmp} lockfile={if s.lockFile.isSome then 1 else 0} " ++ ",".intercalate pcs
+    | it :: rest =>
+      let (ps, evt) := match it.splitOn ":" with
+        | [a, b] => (a, some b)
+        | _ => (it, none)
+      let fail := ps.endsWith "!"
+      let ps := if fail then (ps.dropEnd 1).toString else ps
+      match ps.toNat? with
+      | none => "bad-op"
+      | some p =>
+        if p ≥ n then "bad-op" else
+        match evt with
+        | some e => if e ≠ eventOf s p then s!"mismatch@{i}:{eventOf s p}" else
+          match step k s p fail with
+          | some s' => go s' (i + 1) (max mx (countExt s')) rest
+          | none => s!"stuck@{i}"
+        | none =>
+          match step k s p fail with
+          | some s' => go s' (i + 1) (max mx (countExt s')) rest
+          | none => s!"stuck@{i}"
+  go init 0 0 items
+
+def handle (line : String) : String :=
+  match fields line with
+  | ["clean", h] => match unhexStr h with
+    | some s => "ok " ++ hexStr (clean s)
+    | none => "bad-op"
+  | ["dir", h] => match unhexStr h with
+    | some s => "ok " ++ hexStr (dirOf s)
+    | none => "bad-op"
+  | ["join", a, b] => match unhexStr a, unhexStr b with
+    | some a, some b => "ok " ++ hexStr (join a b)
+    | _, _ => "bad-op"
+  | ["x", c, f, es] =>
+    let fmt := match f with | "tgz" => some Format.tgz | "zip" => some Format.zip | _ => none
+    match parseCfg c, fmt, parseEntries es with
+    | some cfg, some fmt, some ar =>
+      match extract cfg fmt destStr initFS ar with
+      | (fs, none) => "ok " ++ listing fs
+      | (fs, some _) => "err " ++ listing fs
+    | _, _, _ => "bad-op"
+  | ["lib", c, sub, fname, es] =>
+    match parseCfg c, unhexStr sub, unhexStr fname, parseEntries es with
+    | some cfg, some sub, some fname, some ar =>
+      let cache : FS := [(["cache".toList], Node.dir)]
+      match libResult cfg "/cache/lib".toList sub (fname, []) ar with
+      | none => "nomodel"
+      | some (.ok fs) => "ok " ++ listing (fs ++ cache)
+      | some (.error _) => "err " ++ listing cache
+    | _, _, _, _ => "bad-op"
+  | ["lock", k, n, sched] =>
+    match k.toNat?, n.toNat? with
+    | some k, some n => handleLock k n sched
+    | _, _ => "bad-op"
+  | _ => "bad-op"
+
+def main : IO Unit := lineLoop handle
